@@ -27,6 +27,7 @@ type Batch struct {
 	RaceProp        string // property a race report in this batch is filed under (default C17)
 	RaceOwn         string // ... but only if its signature mentions this substring
 	Prepare         func(overlay string)
+	GenSim          bool // needs the generator built as a simulated process (cmd/gensim + overlay)
 	Family          bool // needs the generated binding family (generator built from /repo's current tree)
 	Real, Stub      []string
 }
@@ -244,6 +245,35 @@ func init() {
 		},
 		Rule:   "each run plans 1-4 calls on 1-3 resources of the family (entities with maps in every position: map fields, maps of records, maps of maps, unions holding maps; finder / action parameter structs; batch key sets and batch entity maps of every key type) and serializes each call 3-7 times end to end (request line, query, headers, body; response headers and body): once with canonical map order and then with every range-over-map site iterating in a drawn permutation and batch keys supplied in a drawn order. Distinct by (resource, method).",
 		Assume: append([]string{"byte identity across OS processes with different runtime hash seeds follows from permutation invariance at every instrumented site; sites the instrumenter could not rewrite are listed in the evidence (none today)", "root-module code is out of scope (C09 is a v2 property)"}, s4Assume...),
+	})
+}
+
+var seamsS6 = Seams{Os: "codegen/utils,cmd", MapOrder: "all"}
+
+func s6b(scen, cfg string, quick, thorough int) Batch {
+	return Batch{Pkg: "scen/s6", Scen: scen, Cfg: cfg, Seams: seamsS6, GenSim: true, NoRace: true, Quick: quick, Thorough: thorough, ThoroughSecs: 1200,
+		Real: []string{"v2/cmd.GenerateCode, ReadManifest, RegisterManifests, LocateCustomTyperefs, v2/codegen/* (type registry, code files, CleanTargetDir) — one OS process per generator run, built from /repo's working tree"},
+		Stub: []string{"the os / io/ioutil call path of packages cmd and codegen/utils (sim/simos: counted, monitored, one call per process failed / torn / crashed)", "Go map iteration order at every range-over-map site of the v2 module (sim/simrt)"}}
+}
+
+func init() {
+	reg(&PropSpec{
+		ID: "C20",
+		Batches: []Batch{
+			s6b("genfs", "", 1500, 150000),
+			s6b("genfs", "faults=1,order=1", 2500, 250000),
+		},
+		Rule:   "each run builds a directory tree (depth <= 3, <= 3 entries per level over {generated file, manifest, user .go file, other file incl. look-alike names, empty dir, nested dir}; target present, absent or '.'), then runs 1-4 operations from {clean, generate} as separate generator processes; second batch: one file-system call of one operation fails (EACCES / ENOSPC / EIO), is torn, or the process crashes before / in / after it, and the workload continues after the 'restart'; map order inside the generator is permuted. Distinct by (target mode, manifest, operations, tree).",
+		Assume: []string{"the generator never syncs, so a crash loses nothing that a completed call had written: crash = process exit at a call boundary (or inside a torn write)", "symlinks and concurrent writers to the output directory are not simulated", "sampled exploration; a clean batch is evidence, not proof"},
+	})
+	reg(&PropSpec{
+		ID: "C12",
+		Batches: []Batch{
+			s6b("gendet", "", 600, 60000),
+			s6b("genfs", "faults=1,order=1,c12=1", 800, 80000),
+		},
+		Rule:   "determinism: each run generates one of {small manifest, binding family (12 types, 10 resources incl. sub-resources, simple resource, action set, complex key, union, includes, defaults), the checked-in v2/restlidata manifest} in a fresh generator process whose range-over-map sites iterate in an order drawn from the run's seed, and compares the tree byte for byte with the canonical-order generation; the restlidata tree is also compared with the checked-in *.gr.go files; second batch: regeneration over crashed / half-cleaned directories converges to the same tree. The generated family is compiled and vetted once per check. Distinct by (manifest, order seed).",
+		Assume: []string{"totality and compilability over the whole schema / resource grammar (and cyclic or clashing namespaces) is program enumeration and is not claimed; the family bounds what is compiled", "map ranges keyed by pointers cannot be ordered reproducibly and keep Go's own order (counted in the evidence as map-range-with-uncontrolled-key-type)", "sampled exploration"},
 	})
 }
 
